@@ -44,12 +44,6 @@ def SourceFacts : Prop :=
     Golib.Gen.C05.decodeInvalidThen = ["return -1 - rune(s[i]), 1"] ∧
     -- decodeRune: final return
     Golib.Gen.C05.decodeRet = "return r, size" ∧
-    -- runeLen: condition
-    Golib.Gen.C05.runeLenCond = "r < 0" ∧
-    -- runeLen: then-branch
-    Golib.Gen.C05.runeLenThen = ["return 1"] ∧
-    -- runeLen: final return
-    Golib.Gen.C05.runeLenElse = "return utf8.RuneLen(r)" ∧
     -- writeRune: condition
     Golib.Gen.C05.writeRuneCond = "r < 0" ∧
     -- writeRune: then-branch
